@@ -476,8 +476,18 @@ def handleGun (kv : List (String × String)) (impl : String) : String × String 
           if (List.range nInst).any (fun i => (splitShots (implInst i)).length != (shotsOf i).length) then
             "fail:count:number of shots"
           else
-          -- round robin: run the open-system view to attribute every observed row to its counter
-          let fed := (List.range nInst).map fun i => runI i true
+          -- round robin: run the open-system view to attribute every observed row to its counter. The shots are the
+          -- ones the instance actually received (WHICH scenario is due is judged by `weights` above, not again here)
+          let implShotsOf (i : Nat) : List ShotIn := (splitShots (implInst i)).filterMap fun evs =>
+            match evs.head? with
+            | some s =>
+              let nm := unesc ((s.splitOn "~").getD 2 "")
+              (ring.find? fun sc => String.ofList sc.name == nm).map fun sc =>
+                { idx := ((s.splitOn "~").getD 1 "").toNat?.getD 0, sc }
+            | none => none
+          let fed := (List.range nInst).map fun i =>
+            runInstance (world reqs rows i ((oracles.getD i "").splitOn ",")) rows rows2 (implShotsOf i)
+              (some (feedsOf i)) Iter.empty []
           if fed.any (·.isNone) then "skip:model-panic" else
           -- variable flow: every request the target received is the rendering of its templates in the variable tree
           -- its shot had built so far (the model run on the same responses and the same observed [next] rows)
